@@ -18,7 +18,7 @@ DEFAULT_SEED = 20261004
 
 PLAN = {
     # prop: (case kinds with weights, quick cases, thorough cases, quick wall cap s, thorough wall cap s)
-    "C20": ([("directed", 1), ("world", 6)], 1800, 40000, 75, 1100),
+    "C20": ([("directed", 1), ("world", 6)], 1800, 40000, 90, 1100),
     "C16": ([("directed", 1), ("world", 6)], 1800, 40000, 75, 1100),
     "C15": ([("hist15", 40), ("mutworld", 1)], 40000, 600000, 70, 900),
     "C14": ([("twin14", 1)], 6000, 120000, 70, 900),
@@ -103,6 +103,7 @@ def plan_items(prop, tier, seed, ncases):
                 # the Awkward third of the list: every second template in the quick tier, the phase chosen by the seed
                 for q in range((npair * 2) // 3 + base % 2, _lim(npair) if SWEEP_LIMIT[0] is None else 0, 2):
                     items.append(("directed", (base % 20000) * 100000 + 80000 + q, tier, prop))
+    sweeps, items = items, []
     for i in range(n):
         kind = bag[i % len(bag)]
         if kind == "mutworld":
@@ -118,7 +119,20 @@ def plan_items(prop, tier, seed, ncases):
             nd += 1
         else:
             items.append((kind, (base + i * 7919) & 0x7FFFFFFF, tier, prop))
-    return items
+    if not sweeps:
+        return items
+    # enumerated sweeps and the random search are merged proportionally (a deterministic function of the two lengths), so
+    # that a run cut short by its wall-clock cap on a loaded machine loses the same share of each, never one of them whole
+    merged = []
+    a = b = 0
+    while a < len(sweeps) or b < len(items):
+        if b >= len(items) or (a < len(sweeps) and a * len(items) <= b * len(sweeps)):
+            merged.append(sweeps[a])
+            a += 1
+        else:
+            merged.append(items[b])
+            b += 1
+    return merged
 
 
 def main(argv=None):
